@@ -7,7 +7,7 @@
    the implementation (directly, by a Go oracle that recomputes the closure from the specs) and
    against the model (per-instance notification sequences and active sets must coincide). *)
 From Coq Require Import List NArith ZArith Bool.
-From Uf Require Import Table.Table Table.TableProofs.
+From Uf Require Import Table.Table Table.TableProofs Table.ClosureProofs.
 Import ListNotations.
 
 Theorem C07_unload_before_close : forall st id sb, find_sym st id = Some sb ->
@@ -22,6 +22,32 @@ Print Assumptions C07_unload_before_close.
 Theorem C07_table_invariant : forall ops, fresh_ops [] ops -> tinv (t_run ops).
 Proof. exact t_run_inv. Qed.
 Print Assumptions C07_table_invariant.
+
+(* the activation test (isActivated: depth-first walk over the port references with a visited set) decides
+   exactly "the reference closure is present": every symbol reachable through resolved port references
+   (closure_ok quantifies over all paths) has a node and all its references resolve to present symbols of its
+   namespace - for every table state with one symbol per id; the walk never runs out of fuel *)
+Theorem C07_activation_test_is_closure : forall st s,
+  NoDup (map s_id (syms st)) -> In s (syms st) ->
+  (is_activated st s = true <-> closure_ok st s).
+Proof. exact is_activated_iff_closure. Qed.
+Print Assumptions C07_activation_test_is_closure.
+
+(* so a load hook only fires for a symbol whose closure is present at that moment, and an unload hook only for
+   one whose closure is still present (load / unload run over the symbol and its referrers and skip the rest) *)
+Theorem C07_load_only_closed : forall st sb,
+  NoDup (map s_id (syms st)) ->
+  exists es, events (fst (load st sb)) = events st ++ es /\
+    forall i, In (ELoad i) es -> exists s, In s (linked st sb) /\ s_inst s = i /\ (In s (syms st) -> closure_ok st s).
+Proof. exact load_only_closed. Qed.
+Print Assumptions C07_load_only_closed.
+
+Theorem C07_unload_only_closed : forall st sb,
+  NoDup (map s_id (syms st)) ->
+  exists es, events (fst (unload st sb)) = events st ++ es /\
+    forall i, In (EUnload i) es -> exists s, In s (linked st sb) /\ s_inst s = i /\ (In s (syms st) -> closure_ok st s).
+Proof. exact unload_only_closed. Qed.
+Print Assumptions C07_unload_only_closed.
 
 (* non-vacuity and the repaired defect: two referrers of one target through out-ports of the same
    name; removing one referrer and then the target unloads the other referrer as well, and it is
